@@ -297,3 +297,26 @@ func genUnusedPair(r *rng) string {
 		return fmt.Sprintf("PAIR unused %d ## %s ## %s", where, base, v.encode())
 	}
 }
+
+// refltwin (C20): a chain of plain functions, paired with the same chain in which a random
+// subset of the function providers is supplied through the Reflective / ReflectiveWrapper interfaces.
+func init() {
+	streams["refltwin"] = &stream{gen: genReflTwin, run: runPair}
+}
+
+func genReflTwin(r *rng) string {
+	c := genChain(r, chainOpts{moreWrap: r.chance(1, 3)})
+	for _, p := range c.provs {
+		p.annots &^= aReflective
+	}
+	base := c.encode()
+	v := parseChain(base)
+	n := 0
+	for _, p := range v.provs {
+		if p.shape != 1 && r.chance(1, 2) {
+			p.annots |= aReflective
+			n++
+		}
+	}
+	return fmt.Sprintf("PAIR refltwin %d ## %s ## %s", n, base, v.encode())
+}
